@@ -225,6 +225,9 @@ class Store:
         self.units = None
         self.divider = None
         self.emit = False
+        # whether the emit flag was set explicitly (store_schema,
+        # set_emit_value): schemas applied later do not change it then
+        self.emit_pinned = False
         self.sources = {}
         self.leaf = False
         self.serializer = None
@@ -663,7 +666,7 @@ class Store:
         # emit value.
         if '_emit' in config and self.inner:
             emit_value = config.pop('_emit')
-            self.set_emit_value(emit=emit_value)
+            self._apply_emit(emit_value)
 
         if self.schema_keys & set(config.keys()):
             # We are at a leaf node, so apply its config.
@@ -730,7 +733,8 @@ class Store:
                 self.properties,
                 config.get('_properties', {}))
 
-            self.emit = config.get('_emit', self.emit)
+            if not self.emit_pinned:
+                self.emit = config.get('_emit', self.emit)
         else:
             # We are at a branch node. Create and configure child nodes.
             if self.leaf and config:
@@ -1123,6 +1127,28 @@ class Store:
                 child.set_emit_value(emit=emit)
         else:
             self.emit = emit
+            # an explicit request: the schema of a process that enters
+            # later does not undo it
+            self.emit_pinned = True
+
+    def _apply_emit(self, emit):
+        """Set the emit flag of the leaves below from a schema.
+
+        Leaves whose flag was set explicitly keep it.
+        """
+        if self.inner:
+            for child in self.inner.values():
+                child._apply_emit(emit)
+        elif not self.emit_pinned:
+            self.emit = emit
+
+    def _pin_emit(self):
+        """Mark the emit flags of all leaves below as set explicitly."""
+        if self.inner:
+            for child in self.inner.values():
+                child._pin_emit()
+        else:
+            self.emit_pinned = True
 
     def recursive_end_process(self, value):
         if isinstance(value.value, ParallelProcess):
